@@ -169,14 +169,16 @@ theorem C05_idem {i : Nat} {t : Task} (ht : pr.tasks[i]? = some t) (hmeth : t.me
 
 /-! ## What forces a run -/
 
-/-- the prompt (if any) is answered yes and nothing interferes with the commands -/
-def Calm (t : Task) (e : Env) : Prop := (t.prompt = false ∨ e.yes = true) ∧ e.killAt = none ∧ e.failAt = none
+/-- the prompt (if any) is answered yes and nothing interferes with the commands (no kill, no
+failing command, no `task:` call that could fail on its precondition) -/
+def Calm (t : Task) (e : Env) : Prop :=
+  (t.prompt = false ∨ e.yes = true) ∧ e.killAt = none ∧ e.failAt = none ∧ ∀ c ∈ t.cmds, c.need = none
 
 theorem runBody_calm (i : Nat) (t : Task) (e : Env) (s : State) (hc : Calm t e) :
     (runBody cfg H pr i t false e s).2.ran = List.range' 0 t.cmds.length ∧
     (runBody cfg H pr i t false e s).2.exit = .ok ∧ (runBody cfg H pr i t false e s).2.skipped = false := by
-  obtain ⟨hp, hk, hf⟩ := hc
-  have hl := cmdLoop_clean e hk hf t.cmds 0 (mkdirTask t s).files []
+  obtain ⟨hp, hk, hf, hn⟩ := hc
+  have hl := cmdLoop_clean e hk hf t.cmds hn 0 (mkdirTask t s).files []
   unfold runBody
   have hcond : (t.prompt && !false && !e.yes) = false := by
     rcases hp with h | h <;> simp [h]
@@ -394,7 +396,7 @@ theorem C05_detect_move_op (pr : Proj) (t : Task) (s : State) (l₁ l₂ : List 
 /- witness: paths 0 = `d/a.e`, 1 = `e/a.e` (same base name `a.e`), sources `**/*.e` -/
 private def tMv : Task :=
   { name := [120], label := [], method := .checksum, sources := [⟨false, [0, 1]⟩], generates := [],
-    status := [], prompt := false, dir := none, cmds := [⟨[]⟩] }
+    status := [], prompt := false, dir := none, cmds := [⟨[], none⟩] }
 private def prMv : Proj :=
   { base := [(0, [100, 47, 97, 46, 101]), (1, [101, 47, 97, 46, 101])], dirOf := [], dirLen := [], tasks := [tMv] }
 private def sMv : State := { State.empty with files := [(0, ⟨[7], 5⟩)] }
@@ -580,7 +582,7 @@ theorem C05_timestamp_newer_reruns (t : Task) (dry : Bool) (now : Nat) (s : Stat
 generates file, run again — the second run is not skipped and executes the command (an instance of
 `C05_missing_generates`; the marker exists, so before TS1 it alone supplied the time). -/
 theorem C05_missing_generates_timestamp_fixed :
-    let t : Task := { tTs with generates := [⟨false, [2]⟩], cmds := [⟨[(2, [9])]⟩] }
+    let t : Task := { tTs with generates := [⟨false, [2]⟩], cmds := [⟨[(2, [9])], none⟩] }
     let pr : Proj := { prTs with tasks := [t] }
     let s1 := (invoke Cfg.fixed id pr 0 .run (env 10) sMv).1
     let s2 := applyOp pr (.delete 2) s1
@@ -600,7 +602,7 @@ def C05_idem_timestamp_full : Prop :=
     (invoke cfg H pr i .run e2 (invoke cfg H pr i .run e1 s0).1).2.ran = []
 
 /- sources `[0]`, `status: test -f 1`; the single command rewrites the source and creates the status file -/
-private def tSt : Task := { tTs with status := [1], cmds := [⟨[(0, [9]), (1, [1])]⟩] }
+private def tSt : Task := { tTs with status := [1], cmds := [⟨[(0, [9]), (1, [1])], none⟩] }
 private def prSt : Proj := { prTs with tasks := [tSt] }
 private def sSt : State := { State.empty with files := [(0, ⟨[7], 5⟩)], marks := [(tsKey tSt, 8)] }
 
@@ -634,13 +636,13 @@ example :
     r1.2.exit = .ok ∧ r1.2.ran = [0] ∧ fpNow id prMv tMv r1.1.files = fpNow id prMv tMv sMv.files ∧
     gensOk tMv r1.1.files = true ∧ (invoke Cfg.fixed id prMv 0 .run (env 20) r1.1).2.ran = [] := by decide
 
-example : Calm tMv (env 3) := ⟨Or.inl rfl, rfl, rfl⟩
+example : Calm tMv (env 3) := ⟨Or.inl rfl, rfl, rfl, by decide⟩
 
 /-- non-vacuity of `C05_idem_timestamp`: a first run that executes (marker at 10, generates written)
 and one with a `status:` that holds before and after; `C05_missing_generates` for method timestamp:
 `gensOk` is false on a state where the marker alone would vouch -/
 example :
-    let t : Task := { tTs with generates := [⟨false, [2]⟩], cmds := [⟨[(2, [9])]⟩] }
+    let t : Task := { tTs with generates := [⟨false, [2]⟩], cmds := [⟨[(2, [9])], none⟩] }
     let pr : Proj := { prTs with tasks := [t] }
     let r1 := invoke Cfg.fixed id pr 0 .run (env 10) sMv
     r1.2.exit = .ok ∧ r1.2.ran = [0] ∧ (∀ p ∈ srcsNow t r1.1.files, mtimeOf r1.1.files p ≤ 10) ∧
